@@ -69,6 +69,7 @@ def units(tier):
     texts = list(dict.fromkeys(texts))
     us = [{"kind": "literal", "texts": ch} for ch in chunks(texts, 14)]
     us.append({"kind": "keyword"})
+    us.append({"kind": "kwprec"})
     return us
 
 
@@ -102,6 +103,8 @@ def run_unit(u):
     st = res["stats"]
     if u["kind"] == "keyword":
         return run_keyword(res, st)
+    if u["kind"] == "kwprec":
+        return run_kwprec(res, st)
     for text in u["texts"]:
         st["texts"] += 1
         # inputs: the text in context, near misses, and all short strings over its characters
@@ -220,4 +223,58 @@ def run_keyword(res, st):
                         continue
                     break
                 res["nontrivial"].append(h16(case))
+    return res
+
+
+KWPREC_WORDS = ["if", "for", "begin", "a1", "x", "If", "FOR"]
+KWPREC_NAMES = ["ID", "Word", "a", "ident", "name", "word", "zz", "_x"]
+
+
+def run_kwprec(res, st):
+    """Keyword terminals keep the precedence of string recognizers: where a keyword and an
+    identifier-like regex terminal of the same priority are both expected and match the same
+    text, the keyword is chosen -- whatever the regex terminal is called -- exactly as the
+    plain string terminal is chosen in the same grammar without a KEYWORD rule."""
+    from parglare import Parser
+    from parglare.exceptions import ParglareError
+    for word in KWPREC_WORDS:
+        for name in KWPREC_NAMES:
+            for ignore_case in (False, True):
+                for extra in ("", "T2: 'zq';\n"):
+                    body = "S: '%s' 'x' | %s 'y'%s;\nterminals\n%s: /[A-Za-z0-9_]+/;\n%s" % (
+                        word, name, " | T2" if extra else "", name, extra)
+                    outs = {}
+                    for kwrule in ("", "KEYWORD: /\\w+/;\n"):
+                        gtxt = body + kwrule
+                        for text in (word + " x", word + "q y", word.swapcase() + " x"):
+                            try:
+                                p = Parser(Grammar.from_string(gtxt, ignore_case=ignore_case))
+                                out = p.parse(text)
+                            except ParglareError as e:
+                                out = type(e).__name__
+                            if ignore_case and isinstance(out, list):
+                                # a string recognizer reports the grammar's spelling, a keyword
+                                # regex the input's: which terminal was chosen is what is compared
+                                out = [x.lower() for x in out]
+                            outs[(bool(kwrule), text)] = out
+                    case = {"word": word, "regex_terminal_name": name, "ignore_case": ignore_case,
+                            "grammar": body + "KEYWORD: /\\w+/;\n"}
+                    res["evaluations"] += 1
+                    st["keyword_cases"] += 1
+                    res["nontrivial"].append(h16(case))
+                    # the keyword followed by a separator: same choice as the plain string terminal
+                    for text in (word + " x", word.swapcase() + " x"):
+                        if outs[(True, text)] != outs[(False, text)]:
+                            res["violations"].append({"kind": "keyword-loses-string-precedence",
+                                                      "case": dict(case, input=text),
+                                                      "observed": outs[(True, text)],
+                                                      "expected": outs[(False, text)]})
+                            break
+                    # glued to a word character the keyword must not match: the regex alternative is taken
+                    want_q = [(word + "q").lower() if ignore_case else word + "q", "y"]
+                    if outs[(True, word + "q y")] != want_q:
+                        res["violations"].append({"kind": "keyword-matches-inside-word",
+                                                  "case": dict(case, input=word + "q y"),
+                                                  "observed": outs[(True, word + "q y")],
+                                                  "expected": want_q})
     return res
